@@ -256,6 +256,6 @@ h!(c12_m_set_pixels, 5, history_h(V::new(), 1, 7, 12, true));
 //@ props=C12 inst="DrawTarget::fill_contiguous (2x1 rectangle, <= 2 colours)" bounds="same" timeout=1200 mem=8
 h!(c12_m_fill_contiguous, 6, history_h(V::new(), 1, 8, 12, true));
 //@ props=C12 cfg=smallcap required=no inst="DrawTarget::draw_iter (<= 1 pixel, any i32 coordinates; capacities 4/8 under hook H4)" bounds="same" timeout=1800 mem=16
-h!(c12_m_draw_iter, 5, history_h(V::new(), 1, 9, 12, true));
+h!(c12_m_draw_iter, 3, history_h(V::new(), 1, 9, 12, true));
 //@ props=C12 inst="DrawTarget::clear" bounds="same" timeout=900 mem=6
 h!(c12_m_clear, 5, history_h(V::new(), 1, 10, 12, true));
